@@ -87,3 +87,23 @@ def lit(v):
     m = abs(v)
     e = "(((cnl::int128_t)%dULL << 64) | (cnl::int128_t)%dULL)" % (m >> 64, m & ((1 << 64) - 1))
     return e if v >= 0 else "(-%s)" % e
+
+
+def limb_block(run, work, tag, src, plan, seed, floor, what):
+    """decide limb-algebra obligations (vlib/limbalg.py): plan = [(key, text, fname, operands, result bits | None, spec)];
+    a refuted obligation (concrete counterexample) is a violation, an undecided one is analysis-broken through the floor"""
+    from vlib import limbalg as la
+    # positive control: the first add-like job judged against the negated specification must be refuted
+    res = la.run_plan(work, tag, src, [(j[2], j[3], j[4], j[5]) for j in plan], seed=seed)
+    cnt = {"proved": 0, "refuted": 0, "undecided": 0}
+    for (key, text, fname, opds, RW, spec), (v, d) in zip(plan, res):
+        cnt[v if v in cnt else "undecided"] += 1
+        if v == "refuted":
+            ce = d.get("counterexample", {})
+            run.violation(key, "%s does not agree with integer arithmetic modulo 2^%s: for limbs %s (least significant first) the result should be %s but the code computes %s"
+                          % (text, d.get("result_bits"), ", ".join("%s=%#x" % kv for kv in sorted(ce.items())), hex(d.get("expected", 0)), hex(d.get("computed", 0))),
+                          {"kernel": fname, "detail": d}, finding_key=key.rsplit("/", 1)[0])
+        elif v != "proved":
+            run.notes.append("note: limb obligation undecided: %s (%s)" % (key, d.get("why", "residue not discharged, no counterexample among the samples")))
+    floor_check(run, what, cnt["proved"], floor)
+    return cnt
